@@ -24,7 +24,7 @@ pub fn profile(name : &str) -> Profile
     {
         "sched" => Profile{serial_ref : true, equal_outputs : true, max_steps : 10, ..base},
         "env" => Profile{env : true, fail : false, ..base},
-        "clock" => Profile{tick : true, twin : true, fail : false, wreck : false, equal_outputs : true, damage : false, ..base},
+        "clock" => Profile{tick : true, twin : true, fail : true, wreck : false, equal_outputs : true, damage : false, ..base},
         "clockd" => Profile{tick : false, twin : true, fail : false, wreck : false, equal_outputs : true, damage : false, ..base},
         "big" => Profile{max_rules : 10, max_steps : 24, ..base},
         "crash" => Profile{max_steps : 7, wreck : false, damage : false, ..base},
@@ -52,6 +52,12 @@ pub fn gen_rules(rng : &mut Rng, pr : &Profile) -> (Vec<XRule>, Vec<String>)
             tg.push(format!("{}{}.s", POOL[ni % POOL.len()], ni));
             ni += 1;
             for _ in 2..nt { tg.push(format!("{}{}", POOL[ni % POOL.len()], ni)); ni += 1; }
+        }
+        else if nt == 1 && rules.len() > 0 && rng.chance(1, 5)
+        {   /* a target whose name extends the name of another rule's target (goal names must not match by prefix) */
+            let other = &rules[rng.below(rules.len())].tg[0];
+            if !other.contains('/') { tg.push(format!("{}x", other)); } else { tg.push(format!("{}{}", POOL[ni % POOL.len()], ni)); }
+            ni += 1;
         }
         else { for _ in 0..nt { tg.push(format!("{}{}", POOL[ni % POOL.len()], ni)); ni += 1; } }
         let ns = 1 + rng.below(std::cmp::min(3, avail.len()));
